@@ -299,6 +299,13 @@ fn classify_solicited(
         !ctrl.uns
             && ctrl.seq == r.next_seq
             && ctrl.fir == r.expect_fir
+            // (the flags are part of what makes a fragment look right: a non-final fragment of a READ response asks for
+            // confirmation, any other response is a single fragment)
+            && if r.func == refapp::FUNC_READ {
+                ctrl.fin || ctrl.con
+            } else {
+                ctrl.fir && ctrl.fin
+            }
             && t <= r.deadline
             && (refapp::decode_fragment(bytes).is_ok() || refapp::response_parses_leniently(bytes))
     };
